@@ -202,20 +202,42 @@ def _check_slot(run, repo, world, mod):
                where(mod, fn),
                sample={"rule": "R-SLOT", "exit": what,
                        "worlds": len(W.at(ex))})
-    # semaphore / lock regions are `async with` (released on every exit)
+    # semaphore / lock regions are released on every exit: `async with`, or
+    # `await <serialiser>.acquire()` paired with a release on every path out
+    # (try/finally) - decided on the flow graph with the lockset analysis of
+    # drv.py, where a cancelled acquire does not hold the lock
+    from ..drv import lock_events, lock_worlds
     n_with = 0
+    SER = ("_command_semaphore", "_command_lock")
     for (c, name, kind, f2) in methods_of(world, HID):
         for n in ast.walk(f2):
-            if isinstance(n, ast.AsyncWith):
+            if isinstance(n, ast.AsyncWith) and any(
+                    unparse(it.context_expr) in ("self." + x for x in SER)
+                    for it in n.items):
                 n_with += 1
-        for n in ast.walk(f2):
-            if isinstance(n, ast.Call) and isinstance(
-                    n.func, ast.Attribute) and n.func.attr == "acquire" and \
-                    unparse(n.func.value) in ("self._command_semaphore",
-                                              "self._command_lock"):
-                run.ob("R-SLOT", "%s.%s.%s#raw-acquire" % (HID, c.name, name),
-                       False, "the gateway serialiser must be held with "
-                       "`async with`, not a bare acquire()", where(mod, n))
+        by_hand = [n for n in ast.walk(f2) if isinstance(n, ast.Call) and
+                   isinstance(n.func, ast.Attribute) and
+                   n.func.attr == "acquire" and unparse(n.func.value) in (
+                       "self." + x for x in SER)]
+        if not by_hand:
+            continue
+        cfg2 = CFG(f2, may_raise=suspension_may_raise,
+                   name="%s.%s" % (c.name, name))
+        W2 = lock_worlds(cfg2)
+        for ln in sorted({l for n_ in cfg2.reachable
+                          for (k, l) in lock_events(n_)
+                          if k == "acquire" and l in SER}):
+            n_with += 1
+            for ex, what in ((cfg2.exit, "normal"),
+                             (cfg2.raise_exit, "exception / cancellation")):
+                bad = W2.worlds_with(ex, lambda w, ln=ln: ("held", ln) in w)
+                run.ob("R-SLOT", "%s.%s.%s#raw-acquire" % (HID, c.name,
+                                                           name),
+                       not bad, "the gateway serialiser %s is taken with a "
+                       "bare acquire() and still held at the %s exit (%s): "
+                       "every later command waits for it for ever" % (
+                           ln, what, path_str(W2.trace(ex, bad[0])[-8:], 8)
+                           if bad else ""), where(mod, by_hand[0]))
     run.floor("async-with serialiser regions in hid.py", n_with, 3)
 
 
